@@ -200,3 +200,135 @@ class MemMonitor(NullMonitor):
 
     def on_pc_escape(self, pc):
         self.bad(pc, 'program counter left the code section')
+
+
+class FrameMonitor(NullMonitor):
+    """C08 / C16: (fp, ap) discipline at calls, loop instances and try/stop; no fall-through between functions."""
+
+    def __init__(self, prog):
+        self.L = Layout(prog)
+        self.prog = prog
+        self.violations = []
+        self.calls = []          # (expected return pc, fp, ap)
+        self.loops = []          # (N, fp, ap, call depth)
+        self.tries = []          # (N, fp, ap, call depth, loop depth)
+        self.pending_handler = None
+        self.prev_pc = None
+        self.jumped = False
+        self.kind = {}
+        self.func_entry = {}
+        self.func_of_pc = {}
+        cur = None
+        for pc in range(len(prog.code)):
+            for n in prog.code_labels.get(pc, ()):
+                base, _, num = n.rpartition('_')
+                if base in ('loop', 'continue', 'break', 'begin_try', 'try_handler', 'end_try', 'end_call') and num.isdigit():
+                    self.kind.setdefault(pc, []).append((base, int(num)))
+                if n.startswith('func_') or n in ('write_const_byte_array', 'write_string', 'write_state_byte_array', 'write_bool',
+                                                  'write_int', 'all_is_win', 'all_is_broken', 'stack_overflow', 'division_by_zero',
+                                                  'out_of_bounds', 'nonlocal_preempt'):
+                    self.func_entry[pc] = n
+                    cur = n
+            self.func_of_pc[pc] = cur
+        self.stats = {'calls_checked': 0, 'loop_edges_checked': 0, 'try_checked': 0, 'nonlocal_releases': 0}
+        self.release_stmt = None
+        self.ap_lowered_in = set()
+        self.fallthrough = None
+
+    def begin(self, vm, mem):
+        super().begin(vm, mem)
+        self.ws = vm.ws
+
+    def word(self, addr):
+        return int.from_bytes(self.mem[addr:addr + self.ws], 'little')
+
+    def bad(self, pc, what):
+        if len(self.violations) < 5:
+            self.violations.append((pc, what, self.prog.src[pc] if pc < len(self.prog.src) else '?', self.prog.stmt_at.get(pc), self.prog.func_at.get(pc)))
+
+    def regs(self):
+        return self.word(self.L.fp), self.word(self.L.ap)
+
+    def on_alu(self, pc, op, dest, a, result):
+        if dest == self.L.ap and result < self.word(self.L.ap):
+            st_ = self.prog.stmt_at.get(pc) or ''
+            if st_.endswith(('BreakStatement', 'ContinueStatement', 'ReturnStatement')):
+                self.stats['nonlocal_releases'] += 1
+
+    def on_instr(self, pc, op, a):
+        arrived_by_jump = self.jumped
+        self.jumped = False
+        prev = self.prev_pc
+        self.prev_pc = pc
+        # C16: sequential flow from one function's code into another function's first instruction
+        if not arrived_by_jump and prev is not None and pc in self.func_entry and self.func_of_pc.get(prev) != self.func_entry[pc]:
+            self.bad(pc, 'control ran off the end of %s into %s' % (self.func_of_pc.get(prev), self.func_entry[pc]))
+        if self.pending_handler is not None:
+            n, hpc = self.pending_handler
+            if self.prog.stmt_at.get(pc) != self.prog.stmt_at.get(hpc) or any(k[0] == 'end_try' for k in self.kind.get(pc, ())):
+                self.check_try(pc, n, 'first statement of the stop handler')
+                self.pending_handler = None
+        for base, n in self.kind.get(pc, ()):
+            fp, ap = self.regs()
+            if base == 'end_call':
+                if self.calls and self.calls[-1][0] == pc:
+                    _, cfp, cap = self.calls.pop()
+                    self.stats['calls_checked'] += 1
+                    if (fp, ap) != (cfp, cap):
+                        self.bad(pc, 'call returned with (fp, ap) = (%d, %d), at the call they were (%d, %d)' % (fp, ap, cfp, cap))
+                    depth = len(self.calls)
+                    while self.loops and self.loops[-1][3] > depth:
+                        self.loops.pop()
+            elif base == 'loop':
+                if not arrived_by_jump:
+                    self.loops.append((n, fp, ap, len(self.calls)))
+                else:
+                    self.check_loop(pc, n, fp, ap, 'back edge', pop=False)
+            elif base == 'continue':
+                self.check_loop(pc, n, fp, ap, 'continue point', pop=False)
+            elif base == 'break':
+                self.check_loop(pc, n, fp, ap, 'loop exit', pop=True)
+            elif base == 'begin_try':
+                self.tries.append((n, fp, ap, len(self.calls), len(self.loops)))
+            elif base == 'try_handler':
+                # only stop handlers are preceded by a begin_try label
+                for k in range(len(self.tries) - 1, -1, -1):
+                    if self.tries[k][0] == n:
+                        del self.tries[k + 1:]
+                        del self.calls[self.tries[k][3]:]
+                        del self.loops[self.tries[k][4]:]
+                        self.pending_handler = (n, pc)
+                        break
+            elif base == 'end_try':
+                if self.tries and self.tries[-1][0] == n:
+                    if self.pending_handler is None:
+                        self.check_try(pc, n, 'end of the try statement')
+                    self.tries.pop()
+
+    def check_loop(self, pc, n, fp, ap, what, pop):
+        for k in range(len(self.loops) - 1, -1, -1):
+            if self.loops[k][0] == n and self.loops[k][3] == len(self.calls):
+                _, lfp, lap, _ = self.loops[k]
+                self.stats['loop_edges_checked'] += 1
+                if (fp, ap) != (lfp, lap):
+                    self.bad(pc, '%s of loop %d reached with (fp, ap) = (%d, %d), the loop was entered with (%d, %d)' % (what, n, fp, ap, lfp, lap))
+                if pop:
+                    del self.loops[k:]
+                else:
+                    del self.loops[k + 1:]
+                return
+
+    def check_try(self, pc, n, what):
+        if self.tries and self.tries[-1][0] == n:
+            _, tfp, tap, _, _ = self.tries[-1]
+            fp, ap = self.regs()
+            self.stats['try_checked'] += 1
+            if (fp, ap) != (tfp, tap):
+                self.bad(pc, '%s %d reached with (fp, ap) = (%d, %d), the try was entered with (%d, %d)' % (what, n, fp, ap, tfp, tap))
+
+    def on_jump(self, pc, target, taken, operand):
+        if taken:
+            self.jumped = True
+            if target in self.func_entry and operand[0] == 'i' and self.func_entry[target].startswith(('func_', 'write_')):
+                fp, ap = self.regs()
+                self.calls.append((pc + 2, fp, ap))
